@@ -32,10 +32,12 @@ PROPS["C02"] = {
     "level_note": "Trusted: Coq kernel, hand-written model of message.go (validated by correspondence, not generated), Go slice model, harness. No axioms.",
     "technique": "Rocq proof over hand-written Gallina model + exhaustive/differential correspondence (vm_compute)",
     "props_file": "Props/C02.v",
-    "eval_module": "Run.EvalFrame",
+    "eval_modules": ["Run.EvalFrame", "Run.EvalClient"],
+    "imports": ["XS.Lib.Bufio"],
     "kinds": {
         "validate": {"type": "case_validate", "chk": "chk_validate", "sig": "sig_validate", "scope": "N_scope"},
         "corrupt": {"type": "case_corrupt", "chk": "chk_corrupt", "sig": "sig_corrupt", "scope": "N_scope"},
+        "client": {"type": "case_client", "chk": "chk_client", "sig": "sig_client", "scope": "N_scope"},
     },
     "rule": "validate: every string over {fa,ff,00,01,02,fe} up to length 4 (thorough 5), the same behind a fa ff header, corpus of past failures, random frames (lengths biased to 0,1,253-256,2046-2048) and 1-2 mutations each; every input with cap=len and cap=len+3. corrupt: frames x positions x deltas (all 255 deltas x all positions for one frame). non-trivial = the model's validate leaves through a branch other than 'too few bytes on empty input' / corruption of a well-formed frame; distinct = distinct case terms",
     "trusted": FRAME_TRUSTED,
@@ -78,13 +80,59 @@ PROPS["C01"] = {
     "level_note": "Trusted: Coq kernel; hand-written models of ScanMessages and of bufio.Scanner.Scan + chunking reader (validated by correspondence on every run); harness. No axioms. The error-with-data convention is proved when the reference segmentation does not end in TooLong (K1 shape).",
     "technique": "Rocq proof by induction (fuel, geometry invariant) over Gallina models of ScanMessages and bufio.Scanner + exhaustive-partition/differential correspondence",
     "props_file": "Props/C01.v",
-    "eval_module": "Run.EvalStream",
+    "eval_modules": ["Run.EvalStream", "Run.EvalClient"],
     "imports": ["XS.Lib.Bufio"],
     "kinds": {
         "split": {"type": "case_split", "chk": "chk_split", "sig": "sig_split", "scope": "N_scope"},
         "scan": {"type": "case_scan", "chk": "chk_scan", "sig": "sig_scan", "scope": "N_scope"},
+        "client": {"type": "case_client", "chk": "chk_client", "sig": "sig_client", "scope": "N_scope"},
     },
     "rule": "split: ScanMessages called directly on every string over {fa,ff,00,01,02,fe} up to length 4 (thorough 5), both atEOF values, header-prefixed variants, random prefixes of framed and arbitrary streams. scan: a real bufio.Scanner over the chunking reader: every stream over {fa,ff,00,01} up to length 4 (thorough 6) x EVERY partition into reads; corpus streams x every 2-cut; framed streams (noise without FA FF, payloads with FA/FF/FA FF, lengths biased to 0,1,253-256,2046-2048) and arbitrary streams (false headers, damaged frames) x schedule families (whole, all-ones, random chunks with empty reads incl. after the last byte, runs of 99/100 empty reads, cuts at each of the first 24 offsets) x terminal errors x both (n,err) conventions; the 64 KiB boundary. non-trivial (scan) = at least one token, an empty read, error-with-data, a non-EOF terminal or an explicit schedule; distinct = distinct case terms",
     "trusted": STREAM_TRUSTED,
     "assumptions": ["bufio.Scanner as shipped with the Go toolchain on PATH (1.23.5); Client uses it with the default buffer"],
+}
+
+PROPS["C13"] = {
+    "level_text": "Theorems (Props/C13.v), for every payload and every destination (contents, length, capacity): the decoded configuration is map decode_group over the complete 4-byte groups (hence independent of the destination and of any history of earlier decodes into it - stated over arbitrary decode sequences), encode-after-decode clears only reserved identifier bits, decode-after-encode is the identity on in-range configurations. The identifier conversion inside the model is the SetUint16/Uint16 regenerated from source. Correspondence: payloads 0..512 bytes x prior destinations (nil, shorter, longer, spare capacity, junk-filled, aliased) x decode sequences, with the backing array's contents recorded before every call.",
+    "level_note": "Trusted: Coq kernel, hand-written model of OutputConfiguration.Unmarshal/Marshal (validated by correspondence), translator for SetUint16/Uint16, Go slice/append model (destination = backing contents up to capacity), harness. No axioms.",
+    "technique": "Rocq proof (induction over groups / decode sequences) over Gallina model using translator-generated identifier functions + differential correspondence",
+    "props_file": "Props/C13.v",
+    "eval_module": "Run.EvalConfig",
+    "kinds": {
+        "ocunm": {"type": "case_ocunm", "chk": "chk_ocunm", "sig": "sig_ocunm", "scope": "N_scope"},
+        "ocmar": {"type": "case_ocmar", "chk": "chk_ocmar", "sig": "sig_ocmar", "scope": "N_scope"},
+    },
+    "rule": "ocunm: Unmarshal(payload) into a destination whose backing array (up to capacity) is recorded first; payload lengths biased to 0,1,3,4,5,7,8,...,511,512 and random 0..512; destinations nil / exact / too small / longer with spare capacity / empty-but-roomy / len<cap<needed / junk-filled, then three further decodes into the same destination and one through an aliasing header. ocmar: Marshal of in-range and out-of-range configurations, each decoded back into a junk destination. non-trivial = at least one group or a partial tail / non-empty configuration; distinct = distinct case terms",
+    "trusted": ["Go append growth is observed, not modelled: every step records the actual backing array before the call"],
+    "assumptions": ["settings are (DataType, CoordinateSystem, Precision, OutputFrequency) with Go's field widths"],
+}
+
+PROPS["C14"] = {
+    "level_text": "Theorems (Props/C14.v): each query-result decoder is total (Ok or Err, never out of bounds) on every payload and returns the reference decoding: device id from the last 4 bytes of a 4- or 8-byte payload else Err; hardware version from exactly 2 bytes else Err; product code = payload minus leading/trailing ASCII whitespace (characterised, not restated); output / CAN configurations per C13 / C15; CAN bus configuration Err below 4 bytes. The command table (request, awaited acknowledge, decoder) is regenerated from client.go and proved equal to the protocol table. Correspondence through the real client: six queries x payload lengths 0..254.",
+    "level_note": "Trusted: Coq kernel, hand-written decoder models (validated by correspondence), translator (command table), strings.TrimSpace modelled on ASCII input only, harness. No axioms.",
+    "technique": "Rocq proof over Gallina decoder models + translator-generated command table + differential correspondence through Client.Get*",
+    "props_file": "Props/C14.v",
+    "tie_files": ["Tie/CommandsAgree.v"],
+    "eval_module": "Run.EvalConfig",
+    "kinds": {"query": {"type": "case_query", "chk": "chk_query", "sig": "sig_query", "scope": "N_scope"}},
+    "rule": "each of the six Get* commands run on a real client whose port delivers an unrelated frame then the acknowledge with the given payload: every length 0..24 (3 contents each below 10), every 8th length to 248, 250..254, one extended-length payload; product code payloads are printable ASCII padded with all six ASCII whitespace characters; a returned value together with an error counts as a panic-class failure. non-trivial = non-empty payload; distinct = distinct case terms",
+    "trusted": ["fmt %d.%d rendering of the hardware version is inverted by the harness (Sscanf) before comparison"],
+    "assumptions": ["product code payloads are ASCII (the property's quantifier); non-ASCII Unicode spaces are outside the model"],
+}
+
+PROPS["C15"] = {
+    "level_text": "Theorems (Props/C15.v): the bus configuration encodes to 4 bytes with bytes 0-1 zero, byte 2 <= 1, byte 3 < 128 and round-trips for both enable values and all 128 codes; output settings encode to 8 bytes each with reserved bits zero, decode-after-encode is the identity on in-range settings, encode-after-decode equals the input with reserved bits cleared and the ID mask replaced by the identifier, one setting per complete 8-byte group - general proofs via land/mod lemmas, induction over the byte string. Correspondence: 2 x 256 bus configurations (complete), payloads 0..8 bytes at both capacities, 0..32 settings with arbitrary fields, byte strings 0..256, fresh and reused receivers.",
+    "level_note": "Trusted: Coq kernel, hand-written models of canconfig.go / canoutputconfiguration.go (validated by correspondence), harness. No axioms.",
+    "technique": "Rocq proof (bit-mask algebra, induction) over Gallina model + exhaustive (bus config) and differential correspondence",
+    "props_file": "Props/C15.v",
+    "eval_module": "Run.EvalConfig",
+    "kinds": {
+        "canmar": {"type": "case_canmar", "chk": "chk_canmar", "sig": "sig_canmar", "scope": "N_scope"},
+        "canunm": {"type": "case_canunm", "chk": "chk_canunm", "sig": "sig_canunm", "scope": "N_scope"},
+        "comar": {"type": "case_comar", "chk": "chk_comar", "sig": "sig_comar", "scope": "N_scope"},
+        "counm": {"type": "case_counm", "chk": "chk_counm", "sig": "sig_counm", "scope": "N_scope"},
+    },
+    "rule": "canmar: both enable values x all 256 int8 codes (complete). canunm: payloads of 0..8 bytes at capacity len and len+2, all 256 enable bytes. comar: 0..32 settings, in-range and arbitrary (identifier up to 255, frequency up to 65535 incl. 0xffff, random masks). counm: the encodings decoded into fresh and into reused receivers (backing array recorded), random byte strings 0..256. non-trivial = enable/code non-zero, non-empty input; distinct = distinct case terms",
+    "trusted": [],
+    "assumptions": ["in-range CAN setting: identifier < 128, frequency < 2048, mask = identifier (DESIGN section 10.4)"],
 }
